@@ -40,8 +40,9 @@ func ReadArguments(reader io.Reader) (args []string, eof bool, err error) {
 			isSeparated = true
 			continue
 		} else if !isEscaped && ch == '\\' {
+			// the escape character itself neither starts nor joins an argument:
+			// the character after it does (isSeparated is left as it is)
 			isEscaped = true
-			isSeparated = false
 			continue
 		}
 		if isSeparated {
@@ -60,7 +61,7 @@ func ReadArguments(reader io.Reader) (args []string, eof bool, err error) {
 				if ch == '\\' {
 					isEscaped = true
 				} else {
-					*current += string(ch)
+					*current += string(buf[:1]) // the byte itself (a rune conversion would re-encode bytes >= 0x80)
 					isEscaped = false
 				}
 			}
@@ -99,7 +100,7 @@ func ReadArguments(reader io.Reader) (args []string, eof bool, err error) {
 				if _, err = reader.Read(buf); err != nil {
 					return nil, err == io.EOF, goaterr.Errorf(err.Error())
 				}
-				value += string(buf[0])
+				value += string(buf[:1])
 				if strings.HasSuffix(value, eof) {
 					value = value[:len(value)-len(eof)]
 					break
@@ -109,7 +110,7 @@ func ReadArguments(reader io.Reader) (args []string, eof bool, err error) {
 			args[len(args)-1] = value
 			continue
 		}
-		*current += string(ch)
+		*current += string(buf[:1])
 		isEscaped = false
 		isSeparated = false
 	}
